@@ -108,6 +108,7 @@ class World(object):
                 self.launch(self.starter)
             if t.startswith('E1'):
                 e.conn = FakeConn(self)
+                e.conn.by = self.starter
             else:
                 self.launch_failed = True
                 self.failed += 1
@@ -199,7 +200,7 @@ def startup_interleavings(run, only=None):
                     for _ in range(2):
                         # at most 4 environment events per run: two other threads performing one operation each, plus the
                         # completion of at most two starter threads (the property quantifies over up to three threads)
-                        if w.env_steps >= 4:
+                        if w.env_steps >= w.env_cap:
                             break
                         ts = w.enabled(w.env.prepare_lock.locked())
                         if not ts:
@@ -220,7 +221,11 @@ def startup_interleavings(run, only=None):
             for op in ops:
                 if op == 'close':
                     had = hasattr(e, 'conn')
+                    w.at_close = (list(w.conns), w.starter if (w.starter is not None and w.starter.alive) else None)
                     e.close()
+                    open_before, starter_before = w.at_close
+                    w.survivors = [c for c in w.conns if not c.closed and (c in open_before or (starter_before is not None and getattr(c, 'by', None) is starter_before))]
+                    w.starter_survives = starter_before is not None and starter_before.alive
                     if had:
                         w.closed_sessions = getattr(w, 'closed_sessions', 0) + 1
                 elif op == 'prepare':
@@ -233,7 +238,8 @@ def startup_interleavings(run, only=None):
         return run_ops
     scenarios = [('prepare', seq('prepare')), ('run', seq('run')), ('_call', seq('_call')),
                  ('prepare;close;_call', seq('prepare', 'close', '_call')), ('prepare;close;prepare', seq('prepare', 'close', 'prepare')),
-                 ('_call;close;_call', seq('_call', 'close', '_call')), ('close;_call', seq('close', '_call'))]
+                 ('_call;close;_call', seq('_call', 'close', '_call')), ('close;_call', seq('close', '_call')),
+                 ('prepare;close', seq('prepare', 'close')), ('_call;close', seq('_call', 'close'))]
     run.path_cap = 400000
     for mname, call in scenarios:
         if only is not None and mname not in only:
@@ -248,6 +254,9 @@ def startup_interleavings(run, only=None):
                     env._run = fake_run.__get__(env)
                     R.Thread = lambda target=None: FakeThread(holder['w'], target)
                     w = World(R, env, starter_alive, conn_present, launched=conn_present)
+                    # environment events per run: 4 (two other threads performing one operation each plus the completion of two starters);
+                    # 3 for sequences of three operations of this thread (the path count grows with the number of lines executed)
+                    w.env_cap = 3 if mname.count(';') >= 2 else 4
                     holder['w'] = w
                     sys.settrace(tracer)
                     try:
@@ -272,6 +281,13 @@ def startup_interleavings(run, only=None):
                     if mname in ('run', '_call') or mname.endswith('_call'):
                         prove('connected-after-run', hasattr(w.env, 'conn') or w.launch_failed,
                               clause='after run() a connection exists (unless the launch failed) [%s]' % sched, path=p)
+                    if mname.endswith(';close'):
+                        # (other threads may open a NEW session once this one is closed: only what existed, or was being started, when
+                        #  close() was entered is this session)
+                        prove('no-session-survives-close', not getattr(w, 'survivors', []) and not getattr(w, 'starter_survives', False),
+                              clause='close() ends the session: every connection that was open when it was called is closed, and a starter thread '
+                                     'that was still running is waited for and its connection closed too [%d connection(s) left open, starter %s; after: %s]'
+                                     % (len(getattr(w, 'survivors', [])), 'still running' if getattr(w, 'starter_survives', False) else 'done', sched), path=p)
                     if mname == '_call' and hasattr(w.env, 'conn'):
                         prove('one-request-sent-one-reply-returned', len(w.env.conn.sent) == 1 and out[1] == ['reply-to', 1], path=p)
                 core.explore(body, on_path)
@@ -423,6 +439,21 @@ def close_and_call(run):
         except Exception:
             ok2 = False
         prove('close-without-connection-is-a-no-op', ok2 and not hasattr(env2, 'conn'), path=path)
+        # the server may be gone already (it died, or the other end was closed): the session is over all the same
+        w3 = World(R, R.Environment(), False, True, True)
+        env3, conn3 = w3.env, w3.env.conn
+
+        def broken(b):
+            raise BrokenPipeError(32, 'Broken pipe')
+        conn3.send_bytes = broken
+        try:
+            env3.close()
+            exc3 = None
+        except Exception as e:
+            exc3 = e
+        prove('close-with-a-dead-server-forgets-the-connection', exc3 is None and not hasattr(env3, 'conn') and conn3.closed,
+              clause='close() on a connection whose server is gone raises nothing and leaves the client usable [%r, connection %s]' % (
+                  exc3, 'kept' if hasattr(env3, 'conn') else 'forgotten'), path=path)
         # after close the next call starts a new server
         launched = []
         env._run = lambda: (launched.append(1), setattr(env, 'conn', FakeConn(w)))[0]
@@ -482,5 +513,6 @@ def _mk(group, names):
 
 
 for _g, _names in (('single-operations', ('prepare', 'run', '_call')), ('prepare-close-call', ('prepare;close;_call',)),
-                   ('prepare-close-prepare', ('prepare;close;prepare',)), ('call-close-call', ('_call;close;_call', 'close;_call'))):
+                   ('prepare-close-prepare', ('prepare;close;prepare',)), ('call-close-call', ('_call;close;_call',)), ('close-call', ('close;_call',)),
+                   ('ends-with-close', ('prepare;close', '_call;close'))):
     harness(['C16'], 'supp.remote.Environment.{prepare,run,_threaded_run,_call,close}[start-up under interference: %s]' % _g)(_mk(_g, _names))
